@@ -245,12 +245,28 @@ func genPlan(rnd *rand.Rand, ci int) plan {
 		p.FragK = 1 + rnd.Intn(40)
 	}
 	p.ReadMax = []int{1, 7, 64, 512, 4096, 8192, 65536}[rnd.Intn(7)]
+	if p.ReadMax < 64 && p.TailLen > 4096 {
+		p.ReadMax = 64 // (tens of thousands of tiny reads only grow the event logs)
+	}
 	p.HandlerClose = rnd.Intn(3) == 0
 	if p.Keep && !p.HandlerClose && rnd.Intn(2) == 0 {
 		p.KeepTail = true
 		p.Partial = rnd.Intn(p.TailLen + 1)
 	}
 	return p
+}
+
+// releaseProbe is stored as a user value of the hijacking request; the server
+// closes it when it resets that request's context.
+type releaseProbe struct{ ch chan struct{} }
+
+func (r releaseProbe) Close() error {
+	select {
+	case <-r.ch:
+	default:
+		close(r.ch)
+	}
+	return nil
 }
 
 type hijackState struct {
@@ -327,6 +343,7 @@ func runCase(p plan, rnd *rand.Rand) (probs []problem, inc string, info map[stri
 	}
 	tc := &tagConn{Scripted: netx.NewScripted(script.Bytes(), frag), closeCh: make(chan struct{})}
 	hs := &hijackState{started: make(chan struct{}), done: make(chan struct{})}
+	released := make(chan struct{})
 	var tail2Given atomic.Bool
 	var keeperGoid atomic.Uint64
 	if p.Tail2Len > 0 {
@@ -365,6 +382,7 @@ func runCase(p plan, rnd *rand.Rand) (probs []problem, inc string, info map[stri
 		c.Write(w1)
 		rr := rand.New(rand.NewSource(p.TailSeed ^ 3))
 		buf := make([]byte, p.ReadMax)
+		hs.got = make([]byte, 0, len(tail)+len(tail2)+64)
 		for {
 			if p.KeepTail && len(hs.got) >= p.Partial {
 				break
@@ -394,6 +412,7 @@ func runCase(p plan, rnd *rand.Rand) (probs []problem, inc string, info map[stri
 		} else {
 			ctx.SetBody(respBody)
 		}
+		ctx.SetUserValue("verif-release-probe", releaseProbe{released})
 		ctx.Hijack(hj)
 		if p.NoResp {
 			ctx.HijackSetNoResponse(true)
@@ -451,21 +470,41 @@ func runCase(p plan, rnd *rand.Rand) (probs []problem, inc string, info map[stri
 	if serveErr != nil {
 		add("serveconn-error", fmt.Sprintf("ServeConn returned %v for a hijacked connection", serveErr))
 	}
-	// wait until the goroutine that ran the hijack handler is gone: everything the server does after the handler is then in the log
+	// Wait until the server is done with the connection: everything it does after the
+	// handler returned is then in the log. Two observations say so: (a) the release
+	// probe (a user value implementing io.Closer that the server closes when it
+	// resets the request context, the last thing hijackConnHandler does), or (b) the
+	// goroutine that ran the handler no longer exists (goroutine dump; used when the
+	// context is legitimately never released, e.g. a kept conn that still needs it).
 	deadline := time.Now().Add(90 * time.Second)
-	for k := 0; goroutineAlive(hs.goid); k++ {
-		if time.Now().After(deadline) {
-			return nil, "goroutine of the hijack handler still alive after 90s\n" + mon.Stacks(), info
+	for k := 0; ; k++ {
+		probe := released
+		if p.KeepTail {
+			probe = nil // the kept conn is used again below: only the goroutine's exit orders that after everything the server does
 		}
-		if k < 5 {
-			runtime.Gosched()
-		} else {
-			sh := k - 5
-			if sh > 7 {
-				sh = 7
+		select {
+		case <-probe:
+		default:
+			if k < 3 {
+				runtime.Gosched()
+				continue
 			}
-			time.Sleep(20 * time.Microsecond << sh)
+			if goroutineAlive(hs.goid) {
+				if time.Now().After(deadline) {
+					return nil, "goroutine of the hijack handler still alive after 90s\n" + mon.Stacks(), info
+				}
+				sh := k - 3
+				if sh > 6 {
+					sh = 6
+				}
+				select {
+				case <-probe:
+				case <-time.After(100 * time.Microsecond << sh):
+					continue
+				}
+			}
 		}
+		break
 	}
 	closedAfter, closes := tc.Closed()
 	// Keep mode: the conn outlives the handler; whoever kept it goes on using it
@@ -667,7 +706,7 @@ func TestC17(t *testing.T) {
 	r.Rule("case = ServeConn over a scripted conn: 0-2 ordinary requests, a hijacking request (GET/POST+body/HEAD, optional Upgrade/101, response body 0-20000 bytes, HijackSetNoResponse 1/3) and a PRNG tail of 0-65536 bytes (random/http-like/CRLF/text) plus an optional second part sent only after the handler's first write; ReduceMemoryUsage, KeepHijackedConns, Read/WriteBufferSize and the fragmentation plan (everything per Read, boundary exactly at the request end, k bytes into the tail, k bytes before the end, fixed n) vary; the hijack handler writes, reads to EOF with PRNG read sizes, writes, optionally closes; in keep mode it may stop early and the kept conn is read to EOF afterwards. distinct = (options, method, fragmentation mode, tail size class, how many tail bytes were already consumed from the conn at hand-over: none/part/all, second part, close variants); non-trivial = tail non-empty")
 	r.Assume("h1 reference decides the request boundary and response framing; goroutine ids taken from runtime.Stack attribute conn operations; 'the server is done' = the goroutine that ran the hijack handler no longer exists")
 	r.Assume("requests with 'Connection: close' (documented: hijack handler skipped) are executed but not judged (events connclose_*)")
-	n := r.N(3000, 100000)
+	n := r.N(3000, 60000)
 	mon.Parallel(n, 0, func(i int) {
 		if !r.Want(i) {
 			return
